@@ -292,6 +292,20 @@ def replay_free_energy(inputs):
         G = free_energy_graph(F, max_energy_threshold=thr)
         if set(G.nodes) != {tuple(i) for i in np.argwhere(vis)}:
             bad.append(f'graph nodes (threshold {thr}) are not exactly the visited voxels')
+    # the same object after its density was changed (accumulated further): probabilities and free energy must follow the current data
+    data2 = np.array(vol.data, dtype=float)
+    bump = rng.integers(0, 4, size=shape)
+    bump[(0,) * 3] += 1
+    vol.data = data2 + bump
+    cur = np.asarray(vol.data, dtype=float)
+    p2 = vol.probability()
+    if not np.allclose(p2, cur / cur.sum(), rtol=1e-13, atol=0):
+        bad.append('after the density of the same Volume object was changed, probability() is not data/total of the current data')
+    with np.errstate(divide='ignore'):
+        F2 = vol.get_free_energy(temperature=T).data
+    v2 = cur > 0
+    if not np.allclose(F2[v2], -k * T * np.log(cur[v2] / cur.sum()), rtol=1e-12, atol=1e-300):
+        bad.append('after the density of the same Volume object was changed, F != -kT ln p of the current data')
     return {'reproduced': bool(bad), 'detail': f'data={data.tolist()} T={T}: ' + '; '.join(bad)}
 
 
